@@ -25,19 +25,27 @@ def _h(s):
     return zlib.crc32(s.encode())
 
 
-def individual_rows(id_, dataval, dim, long=False):
+def individual_rows(id_, dataval, dim, long=False, events=False, precise=False):
+    """Rows of one individual.  Data variants are the abstract tokens of Cohort.tla: "d0" a regular profile, "d1" ANOTHER profile
+    (shifted values; a flat uninformative profile for the precisely observed cohorts; an early profile whose event is observed before
+    the population time-shift for the joint model), "dbad" a value whose squared residual overflows."""
     rng = np.random.RandomState(_h(id_) % (2 ** 31))
     n = 4 + rng.randint(0, 3) if not long else int(long)
     tau = 68 + rng.rand() * 6
     ts = np.sort(62 + rng.rand(n) * 16)
+    if events and dataval == "d1":
+        ts = ts - 12.0               # an early profile: the event is observed before the population time-shift
     rows = []
     for k, t in enumerate(ts):
         r = {"ID": id_, "TIME": float(np.round(t, 4))}
+        if events:                   # (a cohort needs one observed event; the event is at or after the last visit)
+            r["EVENT_TIME"] = float(np.round(ts[-1] + (0.25 if dataval == "d1" else 1.5), 4))
+            r["EVENT_BOOL"] = 0 if dataval == "dbad" else 1
         for f in range(dim):
-            y = 1 / (1 + np.exp(-(t - tau - 2 * f) / 4)) + rng.randn() * 0.03
+            y = 1 / (1 + np.exp(-(t - tau - 2 * f) / 4)) + rng.randn() * (0.003 if precise else 0.03)
             y = float(np.clip(y, 0.02, 0.98))
             if dataval == "d1":
-                y = float(np.clip(y + 0.1, 0.02, 0.98))
+                y = float(np.clip(y + 0.1, 0.02, 0.98)) if not precise else float(0.5 + 0.02 * np.sin(k + f))
             r[f"Y{f}"] = y
         rows.append(r)
     if dataval == "dbad":
@@ -45,37 +53,56 @@ def individual_rows(id_, dataval, dim, long=False):
     return rows
 
 
-def table(cohort, dim, long_first=False):
+def table(cohort, dim, long_first=False, events=False, precise=False):
     rows = []
+    if precise:
+        for id_, dv in cohort:
+            rows += individual_rows(id_, dv, dim, long=40, precise=True)
+        return pd.DataFrame(rows)
     for k, (id_, dv) in enumerate(cohort):
         # "workers" scenarios: very uneven work per individual, neither increasing nor decreasing along the cohort, so that the
         # completion order - and any re-ordering of the tasks by size - differs from the submission order
-        rows += individual_rows(id_, dv, dim, long=([60, 250, 5, 12][min(k, 3)] if long_first else False))
+        rows += individual_rows(id_, dv, dim, long=([60, 250, 5, 12][min(k, 3)] if long_first else False), events=events)
     return pd.DataFrame(rows)
 
 
 class Runner:
-    def __init__(self, kind, workdir, seed):
-        self.kind, self.seed = kind, seed
+    def __init__(self, kind, workdir, seed, precise=False):
+        """precise: the fitted model is given a very small noise and the individuals 40 visits each, so that most proposals of
+        the sampling-based estimators are prohibitive (acceptance ratio numerically 0); only the chains are observed then."""
+        self.kind, self.seed, self.precise = kind, seed, precise
         model, data, df = zoo.make(kind, n_ind=8, seed=3)
         with warnings.catch_warnings():
             warnings.simplefilter("ignore")
             model.fit(data, "mcmc_saem", n_iter=30, seed=seed, progress_bar=False)
-        self.path = os.path.join(workdir, f"cohort_model_{kind}.json")
+        self.path = os.path.join(workdir, f"cohort_model_{kind}{'_precise' if precise else ''}.json")
         model.save(self.path)
+        self.events = kind.startswith("joint")
+        if precise:
+            import json
+            d = json.load(open(self.path))
+            ns = d["parameters"]["noise_std"]
+            d["parameters"]["noise_std"] = [0.01] * len(ns) if isinstance(ns, list) else 0.01
+            json.dump(d, open(self.path, "w"))
         self.dim = model.dimension
+        self.n_chain = 25 if precise else 6
         self.cache = {}
+
+    def data(self, df):
+        return Data.from_dataframe(df, data_type="joint") if self.events else Data.from_dataframe(df)
 
     def observe(self, cohort, n_jobs=1, long_first=False, want=("terms", "chain", "optim")):
         key = (tuple(cohort), n_jobs, long_first, tuple(want))
         if key in self.cache:
             return self.cache[key]
-        df = table(cohort, self.dim, long_first)
+        df = table(cohort, self.dim, long_first, events=self.events, precise=self.precise)
+        if self.precise:
+            want = tuple(w for w in want if w == "chain")
         out = {"ids": [c[0] for c in cohort]}
         with warnings.catch_warnings():
             warnings.simplefilter("ignore")
             model = BaseModel.load(self.path)
-            data = Data.from_dataframe(df)
+            data = self.data(df)
             ds = Dataset(data)
             if "terms" in want:
                 st = model.state.clone(disable_auto_fork=True)
@@ -92,18 +119,43 @@ class Runner:
                 out["sums"] = [float(terms["attach"].double().sum()), float(terms["regul"].double().sum())]
             if "chain" in want:
                 # both sampling-based estimators of the same seeded chain (mean of the kept draws, lowest-loss kept draw)
-                ip = model.personalize(df, "mean_posterior", n_iter=6, seed=self.seed, progress_bar=False)
+                ip = model.personalize(data, "mean_posterior", n_iter=self.n_chain, seed=self.seed, progress_bar=False)
                 d = ip.to_dataframe()
-                ip2 = BaseModel.load(self.path).personalize(df, "mode_posterior", n_iter=6, seed=self.seed, progress_bar=False)
+                ip2 = BaseModel.load(self.path).personalize(data, "mode_posterior", n_iter=self.n_chain, seed=self.seed, progress_bar=False)
                 d2 = ip2.to_dataframe()
                 out["chain"] = {i: d.loc[i].values.tolist() + d2.loc[i].values.tolist() for i in d.index}
                 out["chain_ids"] = list(ip._indices)
             if "optim" in want:
-                ip = BaseModel.load(self.path).personalize(df, "scipy_minimize", seed=self.seed, progress_bar=False, n_jobs=n_jobs, **SCIPY_KW)
+                ip = BaseModel.load(self.path).personalize(data, "scipy_minimize", seed=self.seed, progress_bar=False, n_jobs=n_jobs, **SCIPY_KW)
                 d = ip.to_dataframe()
                 out["optim"] = {i: d.loc[i].values.tolist() for i in d.index}
                 out["optim_ids"] = list(ip._indices)
                 out["optim_cols"] = list(d.columns)
+                if n_jobs > 1:
+                    # + the same request on joblib's threading backend with the FIRST submitted individual made the slowest one
+                    #   (a deterministic completion order that differs from the submission order; the default process backend
+                    #   above leaves the completion order to the scheduler)
+                    import time
+                    import joblib
+                    from leaspy.algo.personalize.scipy_minimize import ScipyMinimizeAlgorithm as _SM
+                    orig = _SM._get_individual_parameters_patient_master
+                    first = str(ds.indices[0])
+
+                    def slow_first(self_, state_pat, **kw):
+                        r = orig(self_, state_pat, **kw)
+                        if str(kw.get("patient_id")) == first:
+                            time.sleep(0.5)
+                        return r
+                    _SM._get_individual_parameters_patient_master = slow_first
+                    try:
+                        with joblib.parallel_backend("threading"):
+                            ip = BaseModel.load(self.path).personalize(data, "scipy_minimize", seed=self.seed, progress_bar=False,
+                                                                       n_jobs=n_jobs, **SCIPY_KW)
+                    finally:
+                        _SM._get_individual_parameters_patient_master = orig
+                    d = ip.to_dataframe()
+                    out["optim_thr"] = {i: d.loc[i].values.tolist() for i in d.index}
+                    out["optim_thr_ids"] = list(ip._indices)
         self.cache[key] = out
         return out
 
@@ -160,13 +212,18 @@ def run_scenario(runner: Runner, ids, data, scen, j=0, newdata="", perm=()):
         rec["chain_same"] = all(_same(base["chain"][i], new["chain"][i], True) for i in unchanged) if "chain" in base else True
         # optimisation results: bit-identical when positions (hence seeded starting points) are unchanged, otherwise the
         # optimum is compared with a tolerance (tau 0.1, others 0.05)
-        if exact:
+        if "optim" not in base:
+            rec["optim_same"] = True
+        elif exact:
             rec["optim_same"] = all(_same(base["optim"][i], new["optim"][i], True) for i in unchanged)
         else:
             tolv = np.array([0.1 if c.startswith("tau") else 0.05 for c in base["optim_cols"]])
             # an individual whose attachment is not finite has no optimum to compare (its objective is inf everywhere)
             dv = dict(zip(ids, data))
             rec["optim_same"] = all(_same(base["optim"][i], new["optim"][i], False, tol=tolv) for i in unchanged if dv[i] != "dbad")
+            if "optim_thr" in new:
+                rec["optim_same"] = rec["optim_same"] and new["optim_thr_ids"] == new["optim_ids"] and all(
+                    _same(base["optim"][i], new["optim_thr"][i], False, tol=tolv) for i in unchanged if dv[i] != "dbad")
     except Exception as e:  # noqa: BLE001
         rec["status"] = f"{type(e).__name__}: {str(e)[:150]}"
     return rec
